@@ -25,6 +25,31 @@ Theorem c15_inline_equivalence : forall E hs ss v m pre post,
 Proof. exact inline_equiv_refresh. Qed.
 Print Assumptions c15_inline_equivalence.
 
+(* --- a configuration is a Go map: the iteration order toStorage happens to see is irrelevant (for maps without two keys of
+       one normalised form): same success/failure, same stored entries, and the observers read a storage as a set --- *)
+From Coq Require Import Permutation.
+Theorem c15_map_order_irrelevant : forall m1 m2 kvs1 st1, Permutation m1 m2 ->
+  expand_all m1 = Some kvs1 -> NoDup (map fst kvs1) -> to_storage m1 = Some st1 ->
+  exists st2, to_storage m2 = Some st2 /\ Permutation st1 st2.
+Proof. exact to_storage_order_irrelevant. Qed.
+Print Assumptions c15_map_order_irrelevant.
+
+Theorem c15_map_order_irrelevant_failure : forall m1 m2 kvs1, Permutation m1 m2 ->
+  expand_all m1 = Some kvs1 -> NoDup (map fst kvs1) -> to_storage m1 = None -> to_storage m2 = None.
+Proof. exact to_storage_failure_order_irrelevant. Qed.
+Print Assumptions c15_map_order_irrelevant_failure.
+
+Theorem c15_storage_is_a_set : forall s1 s2 k, Permutation s1 s2 -> NoDup (map e_key s1) ->
+  st_raw s1 k = st_raw s2 k /\ st_has s1 k = st_has s2 k.
+Proof. intros s1 s2 k Hp Hnd. split; [apply st_raw_perm; assumption|apply st_has_perm; assumption]. Qed.
+Print Assumptions c15_storage_is_a_set.
+
+(* the declarative reading of toStorage: success iff every key parses as a path and all paths are pairwise compatible *)
+Theorem c15_to_storage_spec : forall kvs st, NoDup (map fst kvs) ->
+  (set_all [] kvs = Some st <-> st = entries_of kvs /\ all_split kvs /\ pairwise_compat kvs).
+Proof. exact to_storage_spec. Qed.
+Print Assumptions c15_to_storage_spec.
+
 (* --- an attribute takes the configured value, else its declared default, else creation fails; ${key} is replaced by the
        top-level property (failing if absent) --- *)
 Theorem c15_attribute_law : forall E m st kvs tag k prefix,
